@@ -128,6 +128,15 @@ Fixpoint apool_set (p : list aobj) (i : nat) (o : aobj) : list aobj :=
   | x :: r, S j => x :: apool_set r j o
   end.
 
+(* the object after pydantic has stored the validated value m1 of field f (before the mode="after" validator
+   runs): a property dictionary becomes instances, every other field is a value *)
+Definition stored_obj (h : pheap) (ob : aobj) (f : field) (m1 : metadata) (sh : list string) : pheap * aobj :=
+  match f with
+  | FNodeProps => let n := alloc_sh h (md_node_props m1) (ao_edge ob) sh in (fst n, mkAO m1 (snd n) (ao_edge ob))
+  | FEdgeProps => let e := alloc_sh h (md_edge_props m1) (ao_node ob) sh in (fst e, mkAO m1 (ao_node ob) (snd e))
+  | _ => (h, mkAO m1 (ao_node ob) (ao_edge ob))
+  end.
+
 Definition astep (gv : string) (s : astate) (o : aop) : astate * res unit :=
   let h := as_heap s in
   match o with
@@ -140,22 +149,20 @@ Definition astep (gv : string) (s : astate) (o : aop) : astate * res unit :=
           apush s (fst e) (mkAO m (snd n) (snd e))
       end
   | AAssign i f v sh =>
+      (* GeffMetadata.__setattr__ as the code runs it: snapshot of __dict__; pydantic validates the value with
+         the field's validator (nothing stored on failure), STORES it, then runs the mode="after" validator
+         on the object; on a validation error __setattr__ puts the snapshot back *)
       match nth_error (as_pool s) i with
       | None => (s, no_object)
       | Some ob =>
-          let r := assign (view h ob) f v in
-          match snd r with
+          match set_field (view h ob) f v with
           | Err e => (s, Err e)
-          | Ok _ =>
-              let m' := fst r in
-              match f with
-              | FNodeProps =>
-                  let n := alloc_sh h (md_node_props m') (ao_edge ob) sh in
-                  (mkAS (fst n) (apool_set (as_pool s) i (mkAO m' (snd n) (ao_edge ob))), Ok tt)
-              | FEdgeProps =>
-                  let e := alloc_sh h (md_edge_props m') (ao_node ob) sh in
-                  (mkAS (fst e) (apool_set (as_pool s) i (mkAO m' (ao_node ob) (snd e))), Ok tt)
-              | _ => (mkAS h (apool_set (as_pool s) i (mkAO m' (ao_node ob) (ao_edge ob))), Ok tt)
+          | Ok m1 =>
+              let stored := stored_obj h ob f m1 sh in
+              let p1 := apool_set (as_pool s) i (snd stored) in
+              match md_after (view (fst stored) (snd stored)) with
+              | Ok _ => (mkAS (fst stored) p1, Ok tt)
+              | Err e => (mkAS (fst stored) (apool_set p1 i ob), Err e)
               end
           end
       end
@@ -190,9 +197,11 @@ Definition astep (gv : string) (s : astate) (o : aop) : astate * res unit :=
       match nth_error (as_pool s) i with
       | None => (s, no_object)
       | Some ob =>
-          match create_or_update_metadata gv (Some (view h ob)) d a with
-          | Err e => (s, Err e)
-          | Ok m' => let c := deepcopy h ob in apush s (fst c) (mkAO m' (ao_node (snd c)) (ao_edge (snd c)))
+          (* copy.deepcopy first, then the three assignments on the copy: a rejected one leaves the copy behind *)
+          let c := deepcopy h ob in
+          match create_or_update_metadata gv (Some (view (fst c) (snd c))) d a with
+          | Err e => (mkAS (fst c) (as_pool s), Err e)
+          | Ok m' => apush (mkAS (fst c) (as_pool s)) (fst c) (mkAO m' (ao_node (snd c)) (ao_edge (snd c)))
           end
       end
   | AAddProps i props ctype =>
